@@ -159,7 +159,99 @@ def C19(ctx):
                   TRUSTED_COMMON, ["the session registers its save handler at construction, before any user handler can be registered (checked by the session scenario)"], CHECKER)
 
 
-PROPS = {"C19": C19, "C06": C06, "C07": C07, "C10": C10, "C14": C14, "C15": C15, "C16": C16, "C01": C01, "C17": C17, "C02": C02, "C18": C18, "C03": C03, "C11": C11}
+def C05(ctx):
+    if common_prelude(ctx, ["Props.C05"]):
+        sess_runs(ctx, ["C05"], 60, 600)
+        n = sizes(ctx, 12, 150)
+        for sd in seeds(ctx):
+            res = run_harness(ctx, f"stress-{sd}", "stress", ["-seed", str(sd), "-n", str(n)])
+            fold(ctx, res, ["C05"], f"concurrent senders on the real Session, seed {sd}")
+    ctx.rules.append("T-gen: Session.send / DefaultHandler.Send path facts regenerated from source and decided in Lean; session-model correspondence (numbering, identifiers) on random histories; "
+                     "failing-schedule search: 1..16 sender goroutines x 1..40 messages, GOMAXPROCS in {1,2,16}, outgoing buffer in {0,1,10}, jittering counter/message store and outgoing handler, "
+                     "both roles, inbound test requests answered concurrently, the 1 s heartbeat timer firing, a second session re-using the counter store; an independent tokenizer checks 34=, 49=, 56=, 52= of "
+                     "everything on the outgoing channel; non-trivial = distinct (role, threads, per-thread, GOMAXPROCS, buffer, wire length)")
+    return finish(ctx, "proof", "Lean theorem C05_consecutive over all schedules of the lock/fetch/enqueue/unlock program + regenerated path facts (C05_generated, decide) + session trace invariant + concurrent stress search",
+                  TRUSTED_COMMON + ["the extractor's reading of Session.send / DefaultHandler.Send (statement order, lock/defer-unlock, call sites)", "sync.Mutex provides mutual exclusion; channel sends are FIFO"],
+                  ["no outgoing handler refuses and the stores do not fail (C19's case)"], CHECKER)
+
+
+def disciplined_locs(facts):
+    """python mirror of Lean `compatible`, used only to *name* undisciplined locations in reports"""
+    by = {}
+    for a in facts["access"]:
+        by.setdefault(a["loc"], []).append(a)
+    bad = {}
+    for loc, sites in by.items():
+        if not any(a["write"] and not a["ctor"] for a in sites):
+            continue
+        for a in sites:
+            for b in sites:
+                if (not a["write"] and not b["write"]) or (a["atomic"] and b["atomic"]) or a["ctor"] or b["ctor"]:
+                    continue
+                ok = False
+                for la in a["locks"]:
+                    for lb in b["locks"]:
+                        na, ea = la.replace(":r", ""), not la.endswith(":r")
+                        nb, eb = lb.replace(":r", ""), not lb.endswith(":r")
+                        if na == nb and (ea or eb) and (not a["write"] or ea) and (not b["write"] or eb):
+                            ok = True
+                if not ok:
+                    bad.setdefault(loc, []).append((a, b))
+    return bad
+
+
+JUSTIFIED = {"session.Session.errorHandler", "session.Session.logonRequest", "session.Session.unmarshaller"}
+
+
+def C20(ctx):
+    import re as _re
+    if common_prelude(ctx, ["Props.C20"]):
+        fj = os.path.join(ctx.work, "facts.json")
+        facts = json.load(open(fj))
+        bad = disciplined_locs(facts)
+        ctx.cov["evaluations"] += len(facts["access"])
+        ctx.cov["distinct_nontrivial"] += len({a["loc"] for a in facts["access"] if a["write"] and not a["ctor"]})
+        ctx.cov["samples"].append({"location": "session.Session.state", "sites": [a for a in facts["access"] if a["loc"] == "session.Session.state"][:4]})
+        for loc, pairs in sorted(bad.items()):
+            if loc in JUSTIFIED:
+                continue
+            a, b = pairs[0]
+            ctx.violations.append({"sig": f"C20 undisciplined {loc}", "detail": f"conflicting accesses to {loc} share no mutex: {a['func']} ({a['pos']}, locks {a['locks']}) vs {b['func']} ({b['pos']}, locks {b['locks']})",
+                                   "replay": {"table_pair": [a, b]}})
+        # failing-schedule search: the -race build of the scenario driver
+        rc, out = sh(["go", "build", "-race", "-tags", "verif", "-o", os.path.join(BIN, "race_scn"), "./cmd/race"], cwd=GO, env=GOENV, timeout=900)
+        ctx.oblige("race scenario driver builds with -race against /repo working tree", rc == 0, out)
+        if rc == 0:
+            runs = sizes(ctx, 1, 4)
+            posmap = {}
+            for a in facts["access"]:
+                posmap.setdefault(a["pos"], a["loc"])
+            for k in range(runs):
+                p = subprocess.run([os.path.join(BIN, "race_scn")], stdout=subprocess.PIPE, stderr=subprocess.PIPE, text=True, timeout=600,
+                                   env=dict(GOENV, GORACE="halt_on_error=0"))
+                ctx.cov["evaluations"] += 1
+                ctx.oblige(f"race scenario run {k} completed", "race scenario finished" in p.stdout, p.stderr[-2000:])
+                for rep in p.stderr.split("WARNING: DATA RACE")[1:]:
+                    frames = _re.findall(r"/repo/([\w/\.]+\.go):(\d+)", rep)
+                    locs = []
+                    for fpath, line in frames[:12]:
+                        key = os.path.basename(fpath) + ":" + line
+                        if key in posmap:
+                            locs.append(posmap[key])
+                    loc = locs[0] if locs else (frames[0][0] + ":" + frames[0][1] if frames else "unknown")
+                    ctx.violations.append({"sig": f"C20 race-detector {loc}", "detail": "go race detector report: " + rep[:1500],
+                                           "replay": {"cmd": "bin/race_scn (go build -race ./cmd/race)", "report": rep[:3000]}})
+    ctx.rules.append("T-gen: every read/write of every struct field of root/session/storages.memory/utils written outside constructors, with locks held (intraprocedural + callers' locks for private helpers), "
+                     "regenerated from source and decided in Lean (C20_generated); search: -race build of a scenario with 4 senders, inbound logon / test / resend requests / logout / second logon, both timers expiring at N=1, "
+                     "state queries, handler and event-handler registration, Stop, both roles; non-trivial = locations written outside constructors")
+    return finish(ctx, "proof", "Lean lockset theorem (disciplined table => conflicting accesses mutually exclusive, all interleavings) + regenerated access table decided by kernel evaluation + go race detector scenario as failing-schedule search",
+                  TRUSTED_COMMON + ["the extractor's lockset computation and constructor classification (table printed in work/facts.json)",
+                                    "justified list (config setters called before Run): " + ", ".join(sorted(JUSTIFIED)),
+                                    "data race = simultaneous conflicting access under modelled Mutex/RWMutex/atomic semantics (Go memory model modelled, not derived)"],
+                  ["intended use: OnError / SetLogonRequest / SetUnmarshaller are called before Run"], CHECKER)
+
+
+PROPS = {"C05": C05, "C20": C20, "C19": C19, "C06": C06, "C07": C07, "C10": C10, "C14": C14, "C15": C15, "C16": C16, "C01": C01, "C17": C17, "C02": C02, "C18": C18, "C03": C03, "C11": C11}
 
 
 def replay(ctx, path):
